@@ -206,8 +206,8 @@ theorem exact_number_token (fo : FloatOps) (n : Num) (hwf : n.WF = true) (hex : 
     simp only [Num.WF, Bool.and_eq_true, decide_eq_true_eq] at hwf
     exact scansAs_numberShape (ratDigits10_shape m d hwf.1.1.1) rest h
 
-/-- a number-initial token with a non-number character (`1+`, `-a`, `->x`) is one `Symbol` token before a
-delimiter -/
+/-- a number-initial token with a non-number character (`1+`, `->x`, `1e--7`; not the sign of an exponent:
+`1e-7` is a number since fix c1c04ca, see `numSymFlag`) is one `Symbol` token before a delimiter -/
 theorem number_initial_symbol_token (s rest : Text) (hs : numSymShape s = true) (h : Delim rest) :
     ScansAs s .symbol rest := scansAs_numSym hs rest h
 
@@ -300,6 +300,12 @@ example : inFragment sample = true := by decide
 example : inFragment (.pair (.sym "->x".toList) (.pair (.sym "1+".toList) (.sym "-".toList))) = false := by decide
 example : inFragment (.pair (.sym "->x".toList) (.pair (.sym "1+".toList) (.sym "λ.b".toList))) = true := by decide
 
+/-- since fix c1c04ca the sign of an exponent continues a number token: `1e-7` left the fragment (it reads as a
+number), the near misses and the old members stay -/
+example : numSymShape "1e-7".toList = false ∧ numSymShape "-2.5E+3".toList = false ∧
+    numSymShape "1e--7".toList = true ∧ numSymShape "1ee-7".toList = true ∧ numSymShape "1/2e-3".toList = true ∧
+    numSymShape "1+".toList = true ∧ numSymShape "->x".toList = true ∧ numSymShape "+e-1".toList = true := by decide
+
 example : ∃ d', parseText toyFloats (write toyFloats sample) = .ok (d', none) ∧ SameDatum d' sample ∧
     write toyFloats d' = write toyFloats sample :=
   write_read_write_fragment_partial toyFloats toy_floatText toy_floatLex sample (by decide)
@@ -324,7 +330,7 @@ example : Readable noFloats (.sym "...".toList) := by
     show ('.' : Char) ≠ ',' by decide, show ('.' : Char) ≠ '#' by decide, beq_iff_eq, if_false, if_true]
   have h3 : isSubsequentNumber '.' = true := by decide
   simp only [scanDot, List.cons_append, h3, if_true]
-  have h4 : dotNumberTail ('.' :: '.' :: rest) = (['.', '.'], rest, true) := by
+  have h4 : dotNumberTail true false false ('.' :: '.' :: rest) = (['.', '.'], rest, true) := by
     have : spanWhile isSubsequentIdentifier (['.'] ++ rest) = (['.'], rest) :=
       spanWhile_delim isSubsequentIdentifier (by decide) (by decide) ['.'] rest (by decide) hd
     simp only [List.singleton_append] at this
